@@ -3,6 +3,7 @@ package c20
 import (
 	"context"
 	"fmt"
+	"github.com/nats-io/nats.go"
 	"net"
 	"os"
 	"path/filepath"
@@ -36,6 +37,9 @@ func TestEnumServerStop(t *testing.T) {
 	if stats.Tier() == "thorough" {
 		rounds = 10
 	}
+	// one more round stops an instance that has been up for more than ten seconds
+	// (actors that start late have to take part in the shutdown too)
+	rounds++
 	for r := 0; r < rounds; r++ {
 		dir, err := os.MkdirTemp("", "c20srv-")
 		if err != nil {
@@ -88,7 +92,41 @@ func TestEnumServerStop(t *testing.T) {
 				}
 			}(w)
 		}
-		time.Sleep(time.Duration(100+r*60) * time.Millisecond)
+		// a writer that does not wait for replies keeps the store's queue filled while it stops
+		var fnc *nats.Conn
+		for dl := time.Now().Add(15 * time.Second); ; time.Sleep(50 * time.Millisecond) {
+			// (the listener may come up a moment after WaitStart returns)
+			if fnc, err = nats.Connect(opts.NatsServer, nats.MaxReconnects(0)); err == nil || time.Now().After(dl) {
+				break
+			}
+		}
+		if err != nil {
+			t.Fatalf("flood connection: %v", err)
+		}
+		wg.Add(1)
+		go func() {
+			defer wg.Done()
+			defer fnc.Close()
+			nc := fnc // an outside client of its own: it goes on while the instance shuts down
+			fp := data.Points{{Type: "flood", Value: 1, Time: time.Unix(1700000001, 0), Origin: "f"}}
+			b, _ := fp.ToPb()
+			for {
+				select {
+				case <-stop:
+					return
+				default:
+				}
+				if nc.Publish("p.inst", b) != nil {
+					return
+				}
+				time.Sleep(20 * time.Microsecond)
+			}
+		}()
+		if r == rounds-1 {
+			time.Sleep(10600 * time.Millisecond)
+		} else {
+			time.Sleep(time.Duration(100+r*60) * time.Millisecond)
+		}
 		s.Stop(nil)
 		select {
 		case err := <-done:
